@@ -484,20 +484,29 @@ class DictList(list):
         """
         if isinstance(i, slice):
             # In this case, y needs to be a list. We will ensure all
-            # the id's are unique
+            # the id's are unique before anything is changed
+            y = list(y)
+            replaced_ids = {obj.id for obj in list.__getitem__(self, i)}
+            new_ids = set()
             for obj in y:  # need to be setting to a list
-                self._check(obj.id)
-                # Insert a temporary placeholder so we catch the presence
-                # of a duplicate in the items being added
-                self._dict[obj.id] = None
+                the_id = obj.id
+                if the_id not in replaced_ids:
+                    self._check(the_id)
+                if the_id in new_ids:
+                    raise ValueError(f"id {str(the_id)} is present twice")
+                new_ids.add(the_id)
             list.__setitem__(self, i, y)
             self._generate_index()
             return
-        # in case a rename has occurred
-        if self._dict.get(self[i].id) == i:
-            self._dict.pop(self[i].id)
+        replaced = self[i]
+        if i < 0:
+            i += len(self)
         the_id = y.id
-        self._check(the_id)
+        if self._dict.get(the_id) != i:
+            self._check(the_id)
+        # in case a rename has occurred
+        if self._dict.get(replaced.id) == i:
+            self._dict.pop(replaced.id)
         list.__setitem__(self, i, y)
         self._dict[the_id] = i
 
